@@ -257,11 +257,51 @@ h       .fill xF025
 """, 0
 
 
-PROGRAMS = [p_selfmod_halt, p_reg_midline, p_image_into_device_area, p_call_next, p_call_next_loop, p_store_outside, p_countdown, p_nested_jsr, p_call_rets, p_push_pop, p_selfmod, p_exception, p_halt_middle, p_breaks, p_io,
+def p_swap(rnd):
+    # stores that PERMUTE memory or change two words by +k / -k: every order-independent summary of memory (sum, xor of
+    # all words) is the same before and after, only a word-by-word restore brings the image back
+    return """        ld r0 va
+        ld r1 vb
+        st r1 va
+        st r0 vb
+        lea r2 vc
+        ldr r3 r2 #0
+        add r3 r3 #5
+        str r3 r2 #0
+        ldr r3 r2 #1
+        add r3 r3 #-5
+        str r3 r2 #1
+        ld r0 va
+        out
+        ld r0 vb
+        out
+        halt
+va       .fill x0058
+vb       .fill x0059
+vc       .fill x0100
+vd       .fill x0200
+""", 0
+
+
+def p_case_labels(rnd):
+    # labels that differ ONLY in letter case are different labels (the assembler is case-sensitive): each names its own word
+    return """        lea r0 Cell
+        ld r1 CELL
+        ld r2 cell
+        st r2 cELL
+        halt
+Cell    .fill x0011
+CELL    .fill x0022
+cell    .fill x0033
+cELL    .fill x0044
+""", 0
+
+
+PROGRAMS = [p_swap, p_case_labels, p_selfmod_halt, p_reg_midline, p_image_into_device_area, p_call_next, p_call_next_loop, p_store_outside, p_countdown, p_nested_jsr, p_call_rets, p_push_pop, p_selfmod, p_exception, p_halt_middle, p_breaks, p_io,
             p_unknown_trap, p_selfloop, p_no_halt, p_high]
 
 LABELS = ["here", "next", "ptr", "ptr2", "loop", "main", "val", "fn", "save", "gn", "done", "target", "newi", "dest", "mid", "start", "second", "lbl",
-          "msg", "spin", "tight", "top", "nolabel", "Loop", "ch", "data", "more", "h", "inner"]
+          "msg", "spin", "tight", "top", "nolabel", "Loop", "ch", "data", "more", "h", "inner", "va", "vb", "vc", "vd", "Cell", "CELL", "cell", "cELL", "celL"]
 
 
 def origin_of(text):
